@@ -133,6 +133,66 @@ def hostile(ctx, lw, sim, c, rng, log):
     drain_into(ctx, {"circuit": log, "hostile": kind, "inputs": repr(bad), "outputs": repr(outputs)})
 
 
+def extreme_case(ctx, lw, rng):
+    """Legal but extreme: (a) many photons bunched on the 2-3 modes of a small circuit (occupation factorials beyond
+    2**63), judged against the polynomial-expansion reference; (b) a circuit whose modes are all heralded, so that the
+    only visible state is the empty one."""
+    State, emu = lw.State, lw.emulator
+    from ..gen import haar
+    if rng.random() < 0.7:
+        k = int(rng.choice([2, 2, 3]))
+        c = lw.Unitary(haar(rng, k))
+        log = [["unitary", k]]
+        if rng.random() < 0.3:
+            c.loss(int(rng.integers(k)), float(rng.uniform(0.05, 0.6)))
+            log.append(["loss"])
+        total = int(rng.choice([8, 10, 12, 13, 14, 15, 16, 18, 20, 21]))
+        occ = [0] * k
+        occ[int(rng.integers(k))] = total - (cut := int(rng.integers(0, total // 2 + 1)))
+        occ[int(rng.choice([i for i in range(k) if occ[i] == 0]))] = cut
+        s_in = State(occ)
+        n_total = c.U_full.shape[0]
+        if total <= 14 and rng.random() < 0.5:
+            outs = None
+        else:
+            outs = []
+            for _ in range(int(rng.integers(1, 4))):
+                o = [0] * k
+                o[int(rng.integers(k))] = total - (cut := int(rng.integers(0, total // 2 + 1)))
+                o[int(rng.choice([i for i in range(k) if o[i] == 0]))] += cut
+                outs.append(State(o))
+            if rng.random() < 0.4:
+                outs.append(State(occ))
+        ctx.bucket("many_bunched_photons")
+        if total >= 13:
+            ctx.bucket("occupation_factorials_beyond_64_bits")
+        case = {"circuit": log, "inputs": [occ], "outputs": None if outs is None else [o.s for o in outs], "modes": n_total}
+    else:
+        k = int(rng.integers(1, 4))
+        c = lw.Circuit(k)
+        if k >= 2:
+            c.bs(0, 1, float(rng.uniform(0.1, 0.9)))
+            if k == 3:
+                c.bs(1, 2, float(rng.uniform(0.1, 0.9)))
+        else:
+            c.ps(0, 0.7)
+        hs = [int(rng.integers(0, 2)) for _ in range(k)]
+        for m in rng.permutation(k):
+            c.herald(hs[int(m)], int(m))
+        s_in = State([])
+        outs = None if rng.random() < 0.5 else [State([])]
+        ctx.bucket("every_mode_heralded")
+        case = {"circuit": [["circuit", k], "every mode heralded", hs], "inputs": [[]], "outputs": None if outs is None else [[]]}
+    try:
+        emu.Simulator(c).simulate(s_in, outs)
+    except RecursionError:
+        ctx.count("simulate_raised:RecursionError")
+    except Exception as e:  # noqa: BLE001 - judged by the monitor
+        ctx.count("simulate_raised:" + type(e).__name__)
+    ctx.case(("extreme", tuple(case["inputs"][0]), outs is None), True, sample=case)
+    drain_into(ctx, case)
+
+
 def run(ctx):
     lw = setup(ctx)
     emumon.install()
@@ -141,6 +201,8 @@ def run(ctx):
     emu = lw.emulator
     pool: list = []
     while not ctx.out_of_time():
+        if rng.random() < 0.05:
+            extreme_case(ctx, lw, rng)
         # simulators used earlier must still answer as they did (no interference between objects)
         for old_sim, a_in, a_out, arr0, fp0 in pool[:2]:
             try:
